@@ -101,7 +101,7 @@ def check_history(ctx: Ctx, case):
             wrap()
     log["lineup_len"] = []
     wrap_all(samplers)
-    real = cal.real_data
+    real = np.array(cal.real_data, copy=True)   # a pristine copy: the statement's "real data" is what the user supplied
     E, N = cfg["E"], cal.N
     prev = calib.hist_snapshot(cal)
     seen_big = False
@@ -144,6 +144,11 @@ def check_history(ctx: Ctx, case):
             return
         cur = calib.hist_snapshot(cal)
         n = cal.n_sampled_params
+        if not calib.same_values(np.asarray(cal.real_data), real):
+            count(False)
+            ctx.fail("C02/real-data-changed", f"call {ci}: the calibrator's real data is no longer what was supplied (later "
+                     "losses are computed against something else)", sub, case)
+            return
         # (a) lengths
         lens = {k: len(cur[k]) for k in calib.HIST}
         if set(lens.values()) != {n}:
